@@ -1159,9 +1159,11 @@ def compare(inp, obs, model, corr):
         bad = []
         if set(o["mutated"]) - skip != set(m["mutated"]) - skip:
             bad.append("mutated")
-        if sorted(o["alias"]) != sorted(m["alias"]):
+        # a result holds the classical-bit lists of the SURVIVING branches only (zero-probability branches are
+        # dropped): for the list passed by the caller the model's "aliased" is an upper bound
+        if set(o["alias"]) - skip != set(m["alias"]) - skip or not (set(o["alias"]) & skip) <= set(m["alias"]):
             bad.append("alias")
-        if bool(o["alias_prev"]) != m["alias_prev"]:
+        if (bool(o["alias_prev"]) != m["alias_prev"]) if not skip else (bool(o["alias_prev"]) and not m["alias_prev"]):
             bad.append("alias_prev")
         if m["fresh_equal"] and o["fresh_equal"] is False:
             bad.append("fresh_equal")
